@@ -6,7 +6,6 @@
 /* well-formed rational: both parts well-formed integers in distinct blocks, denominator positive */
 #define V_WFQ(q)      (V_WF (V_NUM (q)) && V_WF (V_DEN (q)) && V_SIZ (V_DEN (q)) > 0 && !__CPROVER_same_object (V_PTR (V_NUM (q)), V_PTR (V_DEN (q))))
 #define V_WFQ_AT(q,k) (V_WF_AT (V_NUM (q), k) && V_WF_AT (V_DEN (q), k) && V_SIZ (V_DEN (q)) > 0 && !__CPROVER_same_object (V_PTR (V_NUM (q)), V_PTR (V_DEN (q))))
-#define V_GHOSTS_OK   (0 <= gk && gk <= V_NMAX && 0 <= gj && gj <= V_NMAX && 0 <= gh && gh <= V_NMAX)
 
 #define V_MPQ2(f) void f (mpq_ptr dest, mpq_srcptr src) \
 __CPROVER_requires (V_WFQ (dest) && V_WFQ (src) && V_GHOSTS_OK) \
